@@ -121,64 +121,170 @@ Proof.
   rewrite app_nth2 by lia. rewrite Nat.sub_diag. destruct (star_tab g r); reflexivity.
 Qed.
 
-Fixpoint rep (j : nat) : str := match j with O => [] | S j' => sCommaEven ++ rep j' end.
+(* text of the terms after the first one: ",t1,t2..." *)
+Definition crep (e : list term) : str := flat_map (fun t => cComma :: render_term t) e.
 
-Lemma star_rep j : hd false (star_tab reG (rep j)) = true.
+Lemma render_crep t e : render (t :: e) = render_term t ++ crep e.
 Proof.
-  induction j as [|j IH]; [reflexivity|].
-  change (rep (S j)) with (cComma :: (sEven ++ rep j)). cbn [star_tab hd].
-  apply existsb_exists. exists (rep j). split.
-  - unfold reG. apply m_alt_l. unfold m_lit.
-    change (has_prefix sCommaEven (cComma :: sEven ++ rep j)) with true. left. reflexivity.
-  - apply andb_true_iff. split.
-    + rewrite app_length. apply Nat.leb_le. lia.
-    + rewrite star_tab_nth. exact IH.
+  revert t. induction e as [|t' e IH]; intros t.
+  - unfold render. cbn. rewrite app_nil_r. reflexivity.
+  - change (render (t :: t' :: e)) with (render_term t ++ cComma :: render (t' :: e)).
+    rewrite IH. reflexivity.
 Qed.
 
-Lemma search_app p pre : forall t, p t = true -> search p (pre ++ t) = true.
+Lemma m_lit_complete l rest : In rest (m_lit l (l ++ rest)).
 Proof.
-  induction pre as [|c pre IH]; intros t H; cbn [app].
-  - destruct t; cbn [search]; rewrite H; reflexivity.
-  - cbn [search]. rewrite (IH t H). apply orb_true_r.
+  unfold m_lit.
+  assert (H : has_prefix l (l ++ rest) = true /\ skipn (length l) (l ++ rest) = rest).
+  { induction l as [|c l IH]; [split; reflexivity|]. destruct IH as [IH1 IH2].
+    cbn [app has_prefix length skipn]. rewrite N.eqb_refl, IH1, IH2. split; reflexivity. }
+  destruct H as [H1 H2]. rewrite H1, H2. left. reflexivity.
 Qed.
 
-(* ------------------------------------------------------------ shape of a rendered expression *)
-Lemma render_cons t t' e : render (t :: t' :: e) = render_term t ++ cComma :: render (t' :: e).
-Proof. reflexivity. Qed.
-
-Lemma shape e : e <> [] -> forallb wf e = true ->
-  (exists pre post, render e = pre ++ sOdd ++ post)
-  \/ (exists j, render e = sEven ++ rep j)
-  \/ (exists pre k r j, wf_r r = true /\ render e = pre ++ render_term (TR k r) ++ rep j).
+Lemma reE_complete t rest : wf t = true -> In rest (reE (render_term t ++ rest)).
 Proof.
-  induction e as [|t e IH]; intros Hne Hwf; [contradiction|].
+  intros Hwf. unfold reE. destruct t as [| |k r].
+  - apply m_alt_l. apply m_lit_complete.
+  - apply m_alt_r, m_alt_l. apply m_lit_complete.
+  - apply m_alt_r, m_alt_r. apply reNT_complete, Hwf.
+Qed.
+
+Lemma reG_complete t rest : wf t = true -> In rest (reG (cComma :: render_term t ++ rest)).
+Proof.
+  intros Hwf. unfold reG. eapply m_cat_intro; [apply m_lit_1|apply reE_complete, Hwf].
+Qed.
+
+Lemma star_crep e : forallb wf e = true -> hd false (star_tab reG (crep e)) = true.
+Proof.
+  induction e as [|t e IH]; intros Hwf; [reflexivity|].
   cbn [forallb] in Hwf. apply andb_true_iff in Hwf as [Ht He].
-  destruct e as [|t' e].
-  - unfold render. cbn [map join]. destruct t as [| |k r].
-    + right. left. exists O. cbn [rep]. rewrite app_nil_r. reflexivity.
-    + left. exists [], []. reflexivity.
-    + right. right. exists [], k, r, O. split; [exact Ht|]. cbn [rep app]. rewrite app_nil_r. reflexivity.
-  - rewrite render_cons. destruct (IH ltac:(discriminate) He) as [(pre & post & Hr)|[(j & Hr)|(pre & k & r & j & Hw & Hr)]].
-    + left. exists (render_term t ++ cComma :: pre), post. rewrite Hr.
-      rewrite <- app_assoc. reflexivity.
-    + rewrite Hr. destruct t as [| |k r].
-      * right. left. exists (S j). reflexivity.
-      * left. exists [], (cComma :: sEven ++ rep j). reflexivity.
-      * right. right. exists [], k, r, (S j). split; [exact Ht|]. reflexivity.
-    + right. right. exists (render_term t ++ cComma :: pre), k, r, j. split; [exact Hw|].
-      rewrite Hr, <- app_assoc. reflexivity.
+  change (crep (t :: e)) with (cComma :: (render_term t ++ crep e)). cbn [star_tab hd].
+  apply existsb_exists. exists (crep e). split; [apply reG_complete, Ht|].
+  apply andb_true_iff. split.
+  - rewrite app_length. apply Nat.leb_le. lia.
+  - rewrite star_tab_nth. apply IH, He.
 Qed.
 
 Lemma re_match_complete e : e <> [] -> forallb wf e = true -> re_match (render e) = true.
 Proof.
-  intros Hne Hwf. unfold re_match.
-  destruct (shape e Hne Hwf) as [(pre & post & Hr)|[(j & Hr)|(pre & k & r & j & Hw & Hr)]]; rewrite Hr.
-  - rewrite search_app; [apply orb_true_r|]. reflexivity.
-  - reflexivity.
-  - rewrite search_app; [apply orb_true_r|].
-    apply orb_true_iff. right. unfold alt3_at. apply existsb_exists. exists (rep j). split.
-    + apply reNT_complete, Hw.
-    + rewrite app_assoc. rewrite star_tab_nth. apply star_rep.
+  intros Hne Hwf. destruct e as [|t e]; [contradiction|].
+  cbn [forallb] in Hwf. apply andb_true_iff in Hwf as [Ht He].
+  unfold re_match. rewrite render_crep. apply existsb_exists. exists (crep e). split.
+  - apply reE_complete, Ht.
+  - rewrite star_tab_nth. apply star_crep, He.
+Qed.
+
+(* ------------------------------------------------------------ soundness of the matchers *)
+Lemma m_lit_sound l s r : In r (m_lit l s) -> s = l ++ r.
+Proof.
+  unfold m_lit. revert s. induction l as [|c l IH]; intros s.
+  - cbn. intros [H|[]]. exact H.
+  - destruct s as [|x s]; cbn [has_prefix]; [intros []|].
+    destruct (N.eqb c x) eqn:E; cbn [andb]; [|intros []].
+    apply N.eqb_eq in E. subst x. cbn [length skipn app]. intros H. f_equal. apply IH. exact H.
+Qed.
+
+Lemma m_digits1_sound s : forall r, In r (m_digits1 s) -> exists a, is_num a = true /\ s = a ++ r.
+Proof.
+  induction s as [|c s IH]; intros r; cbn [m_digits1]; [intros []|].
+  destruct (is_digit c) eqn:Hc; [|intros []].
+  intros [H|H].
+  - subst r. exists [c]. split; [cbn; rewrite Hc; reflexivity|reflexivity].
+  - destruct (IH r H) as (a & Ha & ->). exists (c :: a). split; [|reflexivity].
+    cbn [is_num forallb]. rewrite Hc. cbn [andb]. apply is_num_digits, Ha.
+Qed.
+
+Lemma m_class_sound c1 c2 s r : In r (m_class [c1; c2] s) -> s = c1 :: r \/ s = c2 :: r.
+Proof.
+  unfold m_class. destruct s as [|c s]; [intros []|]. cbn [existsb].
+  destruct (N.eqb c c1) eqn:E1.
+  - apply N.eqb_eq in E1. subst c. intros [H|[]]. subst. left. reflexivity.
+  - destruct (N.eqb c c2) eqn:E2; cbn [orb]; [|intros []].
+    apply N.eqb_eq in E2. subst c. intros [H|[]]. subst. right. reflexivity.
+Qed.
+
+Lemma m_alt_inv (a b : matcher) s r : In r (m_alt a b s) -> In r (a s) \/ In r (b s).
+Proof. unfold m_alt. apply in_app_or. Qed.
+Lemma m_cat_inv (a b : matcher) s r : In r (m_cat a b s) -> exists mid, In mid (a s) /\ In r (b mid).
+Proof. unfold m_cat. intros H. apply in_flat_map in H. exact H. Qed.
+
+Ltac inv :=
+  repeat match goal with
+    | H : In _ (m_alt _ _ _) |- _ => apply m_alt_inv in H; destruct H as [H|H]
+    | H : In _ (m_cat _ _ _) |- _ => apply m_cat_inv in H; destruct H as (? & ? & H)
+    | H : In _ (m_opt _ _) |- _ => destruct H as [H|H]; [subst|]
+    | H : In _ (m_lit _ _) |- _ => apply m_lit_sound in H; subst
+    | H : In _ (m_digits1 _) |- _ => apply m_digits1_sound in H; destruct H as (? & ? & H); subst
+    end.
+
+Ltac wit rt :=
+  exists rt; split;
+  [ cbn [render_r]; unfold sMinus, sL, sMinusL; cbn [app]; rewrite <- ?app_assoc; cbn [app]; reflexivity
+  | cbn [wf_r]; repeat match goal with H : is_num _ = true |- _ => rewrite H; clear H end; reflexivity ].
+
+Lemma reT_sound s r : In r (reT s) -> exists rt, s = render_r rt ++ r /\ wf_r rt = true.
+Proof.
+  unfold reT. intros H. inv;
+  lazymatch goal with
+  | |- exists rt, sL ++ sMinus ++ ?a ++ sMinus ++ _ = @?f rt /\ @?g rt => wit (RLmTo a)
+  | |- exists rt, sL ++ sMinus ++ ?a ++ _ = @?f rt /\ @?g rt => wit (RLm a)
+  | |- exists rt, sL ++ _ = @?f rt /\ @?g rt => wit RL
+  | |- exists rt, sMinusL ++ sMinus ++ ?a ++ _ = @?f rt /\ @?g rt => wit (RUpToLm a)
+  | |- exists rt, sMinusL ++ _ = @?f rt /\ @?g rt => wit RUpToL
+  | |- exists rt, sMinus ++ ?a ++ _ = @?f rt /\ @?g rt => wit (RUpTo a)
+  | |- exists rt, ?a ++ sMinusL ++ sMinus ++ ?b ++ _ = @?f rt /\ @?g rt => wit (RFromLm a b)
+  | |- exists rt, ?a ++ sMinusL ++ _ = @?f rt /\ @?g rt => wit (RFromL a)
+  | |- exists rt, ?a ++ sMinus ++ ?b ++ _ = @?f rt /\ @?g rt => wit (RRange a b)
+  | |- exists rt, ?a ++ sMinus ++ _ = @?f rt /\ @?g rt => wit (RFrom a)
+  | |- exists rt, ?a ++ _ = @?f rt /\ @?g rt => wit (RNum a)
+  end.
+Qed.
+
+Lemma reNT_sound s r : In r (reNT s) -> exists k rt, s = render_term (TR k rt) ++ r /\ wf_r rt = true.
+Proof.
+  unfold reNT, m_cat. intros H. apply in_flat_map in H as (mid & H1 & H2).
+  apply reT_sound in H2 as (rt & -> & Hw). destruct H1 as [H1|H1].
+  - subst s. exists NoNeg, rt. split; [reflexivity|exact Hw].
+  - apply m_class_sound in H1 as [->| ->]; [exists Bang, rt|exists En, rt]; (split; [reflexivity|exact Hw]).
+Qed.
+
+Lemma reE_sound s r : In r (reE s) -> exists t, s = render_term t ++ r /\ wf t = true.
+Proof.
+  unfold reE, m_alt. intros H. apply in_app_or in H as [H|H]; [|apply in_app_or in H as [H|H]].
+  - apply m_lit_sound in H. exists TEven. split; [exact H|reflexivity].
+  - apply m_lit_sound in H. exists TOdd. split; [exact H|reflexivity].
+  - apply reNT_sound in H as (k & rt & -> & Hw). exists (TR k rt). split; [reflexivity|exact Hw].
+Qed.
+
+Lemma reG_sound s r : In r (reG s) -> exists t, s = cComma :: render_term t ++ r /\ wf t = true.
+Proof.
+  unfold reG, m_cat. intros H. apply in_flat_map in H as (mid & H1 & H2).
+  apply m_lit_sound in H1. subst s. apply reE_sound in H2 as (t & -> & Hw).
+  exists t. split; [reflexivity|exact Hw].
+Qed.
+
+Lemma star_sound k : forall s, (length s <= k)%nat -> hd false (star_tab reG s) = true ->
+  exists e, forallb wf e = true /\ s = crep e.
+Proof.
+  induction k as [|k IH]; intros s Hl H.
+  - destruct s; [|cbn in Hl; lia]. exists []. split; reflexivity.
+  - destruct s as [|c r1]; [exists []; split; reflexivity|].
+    cbn [star_tab hd] in H. apply existsb_exists in H as (rem & Hin & Hc).
+    apply andb_true_iff in Hc as [_ Hn].
+    apply reG_sound in Hin as (t & Heq & Hw). inversion Heq. subst c r1.
+    rewrite star_tab_nth in Hn.
+    destruct (IH rem) as (e & He & ->); [cbn [length] in Hl; rewrite app_length in Hl; lia|exact Hn|].
+    exists (t :: e). split; [cbn [forallb]; rewrite Hw, He; reflexivity|reflexivity].
+Qed.
+
+Lemma re_match_sound s : re_match s = true ->
+  exists e, e <> [] /\ forallb wf e = true /\ s = render e.
+Proof.
+  unfold re_match. intros H. apply existsb_exists in H as (r & Hin & Hn).
+  apply reE_sound in Hin as (t & -> & Hw). rewrite star_tab_nth in Hn.
+  destruct (star_sound (length r) r (le_n _) Hn) as (e & He & ->).
+  exists (t :: e). split; [discriminate|]. split; [cbn [forallb]; rewrite Hw, He; reflexivity|].
+  symmetry. apply render_crep.
 Qed.
 
 Lemma render_nonempty e : e <> [] -> forallb wf e = true -> render e <> [].
